@@ -438,6 +438,18 @@ func structures() map[string]*descriptorpb.FileDescriptorProto {
 		m.Field = append(m.Field, fld("user_id", 2, stringT))
 		add("json-name-map-vs-field", []*descriptorpb.DescriptorProto{m})
 	}
+	// the members of a oneof wrapper collide in their property names
+	add("oneof-wrapper-name-collision-casing", []*descriptorpb.DescriptorProto{{Name: str("M"), OneofDecl: []*descriptorpb.OneofDescriptorProto{{Name: str("type")}},
+		Field: []*descriptorpb.FieldDescriptorProto{inOneof(fld("user_ID", 1, msgT("Sub")), 0), inOneof(fld("user_id", 2, msgT("Nothing")), 0)}}})
+	add("oneof-exposed-name-collision-casing", []*descriptorpb.DescriptorProto{{Name: str("M"), OneofDecl: []*descriptorpb.OneofDescriptorProto{exposed("choice", true)},
+		Field: []*descriptorpb.FieldDescriptorProto{inOneof(fld("user_ID", 1, stringT), 0), inOneof(fld("user_id", 2, stringT), 0)}}})
+	{
+		a := inOneof(fld("one", 1, msgT("Sub")), 0)
+		a.JsonName = str("same")
+		b := inOneof(fld("two", 2, msgT("Nothing")), 0)
+		b.JsonName = str("same")
+		add("oneof-wrapper-json-name-explicit-same", []*descriptorpb.DescriptorProto{{Name: str("M"), OneofDecl: []*descriptorpb.OneofDescriptorProto{{Name: str("type")}}, Field: []*descriptorpb.FieldDescriptorProto{a, b}}})
+	}
 	add("deep-same-suffix", []*descriptorpb.DescriptorProto{
 		{Name: str("Order"), NestedType: []*descriptorpb.DescriptorProto{{Name: str("Item"), NestedType: []*descriptorpb.DescriptorProto{{Name: str("Detail"), Field: []*descriptorpb.FieldDescriptorProto{fld("a", 1, stringT)}}}, Field: []*descriptorpb.FieldDescriptorProto{fld("d", 1, ftype{"m", descriptorpb.FieldDescriptorProto_TYPE_MESSAGE, ".rt.v1.Order.Item.Detail"})}}},
 			Field: []*descriptorpb.FieldDescriptorProto{fld("i", 1, ftype{"m", descriptorpb.FieldDescriptorProto_TYPE_MESSAGE, ".rt.v1.Order.Item"})}},
